@@ -121,3 +121,48 @@ brk("c16-regions-2", ["C16"], (IMG, "            1,  # Nb of memory regions", " 
 ben("c16-struct-pack", ["C16"], (IMG, "        uci = struct.Struct(ImageCreator._prepare_suit_storage_struct_format(dfu_max_caches))\n", "        uci_format = ImageCreator._prepare_suit_storage_struct_format(dfu_max_caches)\n"),
     (IMG, "        return uci.pack(*struct_values)", "        return struct.pack(uci_format, *struct_values)"))
 ben("c16-size-local", ["C16"], (IMG, "            ImageCreator._create_suit_storage_file_for_update(\n                dfu_partition_address,\n                os.path.getsize(input_file),", "            envelope_size = os.path.getsize(input_file)\n            ImageCreator._create_suit_storage_file_for_update(\n                dfu_partition_address,\n                envelope_size,"))
+
+# ------------------------------------------------------------------ C20 versions
+brk("c20-rc-below-beta", ["C20"], (M, "            beta = -2\n            rc = -1", "            beta = -1\n            rc = -2"))
+brk("c20-rc-zero", ["C20"], (M, "            rc = -1", "            rc = 0"))
+brk("c20-extra-label", ["C20"], (M, "            rc = -1\n", "            rc = -1\n            dev = -4\n"))
+brk("c20-no-dash-normalise", ["C20"], (M, 'for part in obj.replace("-", ".").split(".")]', 'for part in obj.split(".")]'))
+brk("c20-label-error-unconverted", ["C20"], (M, "                except AttributeError:\n                    raise ValueError(f\"Unsupported prerelease type: {part}\")", "                except AttributeError:\n                    raise"))
+brk("c20-label-lowercased-prefix", ["C20"], (M, "prerelease = getattr(PrereleaseType, part)", "prerelease = getattr(PrereleaseType, part[:2] == 'rc' and 'rc' or part)"))
+brk("c20-minor-shift-8", ["C20"], (BUILD, '            + (int(version["VERSION_MINOR"]) << 16)\n            + (int(version["PATCHLEVEL"]) << 8)', '            + (int(version["VERSION_MINOR"]) << 8)\n            + (int(version["PATCHLEVEL"]) << 16)'))
+brk("c20-patch-shift-4", ["C20"], (BUILD, '            + (int(version["PATCHLEVEL"]) << 8)\n        )\n        if "VERSION_TWEAK" in version:', '            + (int(version["PATCHLEVEL"]) << 4)\n        )\n        if "VERSION_TWEAK" in version:'))
+brk("c20-scfw-minor-shift", ["C20"], (BUILD, '+ (int(version["SYSCTRL_VERSION_MINOR"]) << 16)', '+ (int(version["SYSCTRL_VERSION_MINOR"]) << 12)'))
+brk("c20-regex-dev", ["C20"], (BUILD, 'extraversion_re = r"^(alpha|beta|rc)[\\.]{0,1}([0-9]+){0,1}$"', 'extraversion_re = r"^(alpha|beta|rc|dev)[\\.]{0,1}([0-9]+){0,1}$"'))
+brk("c20-fallback-pre", ["C20"], (BUILD, '                default_version += "-alpha"', '                default_version += "-pre"'))
+ben("c20-mult-instead-of-shift", ["C20"], (BUILD, '(int(version["VERSION_MAJOR"]) << 24)', '(int(version["VERSION_MAJOR"]) * 16777216)'))
+ben("c20-enum-subscript", ["C20"], (M, "                    prerelease = getattr(PrereleaseType, part)\n                    return prerelease.value\n                except AttributeError:", "                    prerelease = PrereleaseType[part]\n                    return prerelease.value\n                except KeyError:"))
+
+# ------------------------------------------------------------------ C06 / C14 encryption
+brk("c06-header-gcm128-aad-stale", ["C06"], (ENC, "SuitIds.COSE_ALG.value: SuitCoseEncryptAlgorithms.COSE_ALG_AES_GCM_256.value,", "SuitIds.COSE_ALG.value: SuitCoseEncryptAlgorithms.COSE_ALG_AES_GCM_128.value,"))
+brk("c06-aad-literal-byte", ["C06"], (ENC, "0x43, 0xA1, 0x01, 0x03, 0x40]", "0x43, 0xA1, 0x01, 0x03, 0x41]"))
+brk("c06-aad-dropped-in-kms", ["C06"], (KMS, "ciphertext_response = aesgcm.encrypt(nonce, plaintext, aad)", "ciphertext_response = aesgcm.encrypt(nonce, plaintext, None)"))
+brk("c06-tag-ct-swapped-in-kms", ["C06"], (KMS, "        ciphertext = ciphertext_response[:-16]\n        tag = ciphertext_response[-16:]", "        ciphertext = ciphertext_response[16:]\n        tag = ciphertext_response[:16]"))
+brk("c06-parse-boundary", ["C06", "C14"], (ENC, "        init_vector = asset_bytes[:12]\n        tag = asset_bytes[12 : 12 + 16]", "        init_vector = asset_bytes[:16]\n        tag = asset_bytes[12 : 12 + 16]"))
+brk("c06-asset-order", ["C06", "C14"], (ENC, "encrypted_asset = nonce + tag + ciphertext", "encrypted_asset = tag + nonce + ciphertext"))
+brk("c06-cli-ct-then-tag", ["C06"], (ENCCMD, '    with open(os.path.join(kwargs["output_dir"], "encrypted_content.bin"), "wb") as file:\n        file.write(tag + encrypted_content)\n\n\ndef generate_info', '    with open(os.path.join(kwargs["output_dir"], "encrypted_content.bin"), "wb") as file:\n        file.write(encrypted_content + tag)\n\n\ndef generate_info'))
+brk("c06-tag-96", ["C06"], (ENC, "Cose_Encrypt_Tagged = cbor2.CBORTag(96, Cose_Encrypt)", "Cose_Encrypt_Tagged = cbor2.CBORTag(16, Cose_Encrypt)"))
+brk("c06-single-wrap", ["C06"], (ENC, "encryption_info = cbor2.dumps(cbor2.dumps(Cose_Encrypt_Tagged))", "encryption_info = cbor2.dumps(Cose_Encrypt_Tagged)"))
+brk("c06-keyid-unwrapped", ["C06"], (ENC, "SuitIds.COSE_KEY_ID.value: cbor2.dumps(key_id),", "SuitIds.COSE_KEY_ID.value: key_id,"))
+brk("c06-direct-code", ["C06"], (ENC, "            self.cose_kw_alg = SuitCoseEncryptAlgorithms.COSE_ALG_DIRECT.value", "            self.cose_kw_alg = SuitCoseEncryptAlgorithms.COSE_ALG_A128KW.value"))
+brk("c06-digest-of-ciphertext", ["C06"], (ENC, "        digest, plaintext_len = digest_generator.generate_digest_size_for_plain_text(firmware)\n        encrypted_asset, encrypted_cek = self.generate_kms_artifacts(firmware, key_name, context)", "        encrypted_asset, encrypted_cek = self.generate_kms_artifacts(firmware, key_name, context)\n        digest, plaintext_len = digest_generator.generate_digest_size_for_plain_text(encrypted_asset)"))
+brk("c06-text-mode-firmware", ["C06"], (ENCCMD, '    with open(kwargs["firmware"], "rb") as file:\n        plaintext = file.read()', '    with open(kwargs["firmware"], "rb") as file:\n        plaintext = file.read().rstrip(b"\\xff")'))
+brk("c06-shake-len", ["C06"], (ENC, "SuitDigestAlgorithms.SHAKE256.value: hashes.SHAKE256(32),", "SuitDigestAlgorithms.SHAKE256.value: hashes.SHAKE256(64),"))
+brk("c06-raw-double-deserialize", ["C06"], (SEC, "return super().from_cbor(super().deserialize_cbor(enc_info_bytes))", "return super().from_cbor(super().deserialize_cbor(super().deserialize_cbor(enc_info_bytes)))"))
+brk("c06-size-file-digest", ["C06"], (ENCCMD, '    with open(os.path.join(kwargs["output_dir"], "plain_text_size.txt"), "w") as file:\n        file.write(str(plaintext_len))', '    with open(os.path.join(kwargs["output_dir"], "plain_text_size.txt"), "w") as file:\n        file.write(str(len(encrypted_content)))'))
+brk("c14-const-nonce", ["C14"], (KMS, "        nonce = os.urandom(12)", "        nonce = bytes(12)"))
+brk("c14-class-level-nonce", ["C14"], (KMS, 'class SuitKMS(SuitKMSBase):\n    """Implementation of the KMS."""\n', 'class SuitKMS(SuitKMSBase):\n    """Implementation of the KMS."""\n\n    _nonce = os.urandom(12)\n'),
+    (KMS, "        nonce = os.urandom(12)", "        nonce = self._nonce"))
+brk("c14-plaintext-derived", ["C14"], (KMS, "        nonce = os.urandom(12)", "        nonce = hashes.Hash(hashes.SHA256()).finalize()[:12] if plaintext else os.urandom(12)"))
+brk("c14-nonce-8", ["C14"], (KMS, "        nonce = os.urandom(12)", "        nonce = os.urandom(8) + bytes(4)"))
+brk("c14-default-arg", ["C14"], (KMS, "    def encrypt(self, plaintext: bytes, key_name: str, context: str, aad: bytes) -> tuple[bytes, bytes, bytes]:", "    def encrypt(self, plaintext: bytes, key_name: str, context: str, aad: bytes, nonce=os.urandom(12)) -> tuple[bytes, bytes, bytes]:"),
+    (KMS, "        nonce = os.urandom(12)\n", ""))
+brk("c14-cached-encrypt", ["C14"], (KMS, "import os\n", "import os\nimport functools\n"), (KMS, "    def encrypt(self, plaintext: bytes,", "    @functools.lru_cache(maxsize=None)\n    def encrypt(self, plaintext: bytes,"))
+brk("c14-publish-other-nonce", ["C14", "C06"], (KMS, "        return nonce, tag, ciphertext", "        return os.urandom(12), tag, ciphertext"))
+brk("c14-second-site-static-nonce", ["C14"], (ENC, "        encrypted_asset = nonce + tag + ciphertext\n", "        encrypted_asset = nonce + tag + ciphertext\n        if len(asset_plaintext) == 0:\n            from cryptography.hazmat.primitives.ciphers.aead import AESGCM\n            encrypted_asset = bytes(12) + AESGCM(bytes(32)).encrypt(bytes(12), b\"\", enc_structure_encoded)\n"))
+ben("c14-secrets-local", ["C14", "C06"], (KMS, "        nonce = os.urandom(12)\n        ciphertext_response = aesgcm.encrypt(nonce, plaintext, aad)", "        iv = os.urandom(12)\n        nonce = iv\n        ciphertext_response = aesgcm.encrypt(iv, plaintext, aad)"))
+ben("c06-aad-from-hex", ["C06"], (ENC, "        enc_structure_encoded = bytes(\n            [0x83, 0x67, 0x45, 0x6E, 0x63, 0x72, 0x79, 0x70, 0x74, 0x43, 0xA1, 0x01, 0x03, 0x40]\n        )", '        enc_structure_encoded = bytes.fromhex("8367456e637279707443a1010340")'))
